@@ -70,9 +70,22 @@ def im1_im2(ctx: Ctx):
     und = [(s, v, n) for s, v, n in r.returns if any(fv and k[0] == "cmp" and k[1] == "Is" and k[3][0] == "global" and k[3][2] == "UNDEFINED"
                                                       for k, fv in s.facts.items())]
     ctx.instance(rule)
-    ctx.ob(rule, fi.qual, "URL() without argument (unpickling)", bool(und) and all(v[0] == "new" for _s, v, _n in und),
+    ctx.ob(rule, fi.qual, "URL() without argument (unpickling)", bool(und) and all(_fresh(model, v) for _s, v, _n in und),
            "the UNDEFINED branch of __new__ must create a fresh object: a cached constructor would hand the shared object to "
            "__setstate__", where(fi, fi.node), sample="returns object.__new__(URL)")
+
+
+def _fresh(model, v, depth=0):
+    """v is an object created for this call: object.__new__(...) here, or the result of an un-memoised package
+    function all of whose returns are such objects."""
+    if v[0] == "new":
+        return True
+    if v[0] == "call" and v[1][0] == "global" and depth < 3 and v[1][1] in model.modules:
+        r = model.resolve_global(v[1][1], v[1][2])
+        if r and r[0] == "func" and not r[1].memo:
+            rr = analyze(model, r[1])
+            return bool(rr.returns) and all(_fresh(model, x, depth + 1) for _s, x, _n in rr.returns)
+    return False
 
 
 def occurrences(t, target, parent=None, out=None):
